@@ -237,6 +237,10 @@ def run(ctx):
     ctx.floor("R03.1", "get_witness call sites", ncall, 2)
     r034(ctx)
     r035(ctx)
+    # a witness is real only if the query that produced it was asked under the constraints of every step up to k and about the system's
+    # bad states at step k: the loop-shell rules of C02 are prerequisites and are re-evaluated here under their own rule ids
+    from . import c02
+    c02.loop_shell(ctx)
 
 
 def flows_from_call(n, call, defs, depth=0):
